@@ -125,11 +125,11 @@ func (ex *Exec) get(f *frame, v ssa.Value) Value {
 	case *ssa.Builtin:
 		return &Func{Builtin: v}
 	}
-	val, ok := f.env[v]
-	if !ok {
+	idx, ok := f.idx[v]
+	if !ok || !f.set[idx] {
 		ex.fail("use of undefined SSA value %s (%T) in %s", v.Name(), v, f.fn)
 	}
-	return val
+	return f.env[idx]
 }
 
 func (ex *Exec) global(g *ssa.Global) *Obj {
@@ -354,15 +354,16 @@ func (ex *Exec) callFunc(fn *ssa.Function, args []Value, env []Value, site ssa.I
 	if fn.Blocks == nil {
 		ex.fail("UNMODELLED callee %s (no body)", fn)
 	}
-	f := &frame{fn: fn, env: make(map[ssa.Value]Value, 32), forks: map[ssa.Instruction]int{}, site: site}
+	vi := ex.eng.valueIndex(fn)
+	f := &frame{fn: fn, idx: vi, env: make([]Value, len(vi)), set: make([]bool, len(vi)), site: site}
 	if len(args) != len(fn.Params) {
 		ex.fail("call of %s with %d args, want %d", fn, len(args), len(fn.Params))
 	}
 	for i, p := range fn.Params {
-		f.env[p] = args[i]
+		f.def(p, args[i])
 	}
 	for i, fv := range fn.FreeVars {
-		f.env[fv] = env[i]
+		f.def(fv, env[i])
 	}
 	ex.frames = append(ex.frames, f)
 	depth := len(ex.frames)
@@ -402,7 +403,7 @@ func (ex *Exec) runBlock(f *frame, b *ssa.BasicBlock, prev *ssa.BasicBlock, name
 		case *ssa.Phi:
 			for i, p := range b.Preds {
 				if p == prev {
-					f.env[ins] = ex.get(f, ins.Edges[i])
+					f.def(ins, ex.get(f, ins.Edges[i]))
 					break
 				}
 			}
@@ -412,11 +413,11 @@ func (ex *Exec) runBlock(f *frame, b *ssa.BasicBlock, prev *ssa.BasicBlock, name
 			if ins.Comment != "" {
 				o.Name = ins.Comment + " in " + f.fn.Name()
 			}
-			f.env[ins] = Ptr{Obj: o}
+			f.def(ins, Ptr{Obj: o})
 		case *ssa.UnOp:
-			f.env[ins] = ex.unop(f, ins)
+			f.def(ins, ex.unop(f, ins))
 		case *ssa.BinOp:
-			f.env[ins] = ex.binop(ins.Op, ex.get(f, ins.X), ex.get(f, ins.Y), ins.X.Type(), ins.Y.Type())
+			f.def(ins, ex.binop(ins.Op, ex.get(f, ins.X), ex.get(f, ins.Y), ins.X.Type(), ins.Y.Type()))
 		case *ssa.Store:
 			ex.store(ex.get(f, ins.Addr), ex.get(f, ins.Val))
 		case *ssa.FieldAddr:
@@ -430,19 +431,19 @@ func (ex *Exec) runBlock(f *frame, b *ssa.BasicBlock, prev *ssa.BasicBlock, name
 			np := make([]int, len(p.Path)+1)
 			copy(np, p.Path)
 			np[len(p.Path)] = ins.Field
-			f.env[ins] = Ptr{Obj: p.Obj, Path: np}
+			f.def(ins, Ptr{Obj: p.Obj, Path: np})
 		case *ssa.Field:
 			s, ok := ex.get(f, ins.X).(*Struct)
 			if !ok {
 				ex.fail("Field on %T", ex.get(f, ins.X))
 			}
-			f.env[ins] = s.F[ins.Field]
+			f.def(ins, s.F[ins.Field])
 		case *ssa.IndexAddr:
-			f.env[ins] = ex.indexAddr(ex.get(f, ins.X), ex.get(f, ins.Index), ins.X.Type(), ins.Index.Type())
+			f.def(ins, ex.indexAddr(ex.get(f, ins.X), ex.get(f, ins.Index), ins.X.Type(), ins.Index.Type()))
 		case *ssa.Index:
-			f.env[ins] = ex.index(ex.get(f, ins.X), ex.get(f, ins.Index), ins.Index.Type())
+			f.def(ins, ex.index(ex.get(f, ins.X), ex.get(f, ins.Index), ins.Index.Type()))
 		case *ssa.Lookup:
-			f.env[ins] = ex.lookup(ex.get(f, ins.X), ex.get(f, ins.Index), ins)
+			f.def(ins, ex.lookup(ex.get(f, ins.X), ex.get(f, ins.Index), ins))
 		case *ssa.Slice:
 			var lo, hi, max Value
 			if ins.Low != nil {
@@ -454,12 +455,12 @@ func (ex *Exec) runBlock(f *frame, b *ssa.BasicBlock, prev *ssa.BasicBlock, name
 			if ins.Max != nil {
 				max = ex.get(f, ins.Max)
 			}
-			f.env[ins] = ex.slice(ex.get(f, ins.X), lo, hi, max, ins)
+			f.def(ins, ex.slice(ex.get(f, ins.X), lo, hi, max, ins))
 		case *ssa.MakeSlice:
-			f.env[ins] = ex.makeSlice(ins.Type(), ex.toInt64Term(ex.get(f, ins.Len), ins.Len.Type()), ex.toInt64Term(ex.get(f, ins.Cap), ins.Cap.Type()))
+			f.def(ins, ex.makeSlice(ins.Type(), ex.toInt64Term(ex.get(f, ins.Len), ins.Len.Type()), ex.toInt64Term(ex.get(f, ins.Cap), ins.Cap.Type())))
 		case *ssa.MakeMap:
 			ex.objSeq++
-			f.env[ins] = &Map{ID: ex.objSeq, M: map[string]Value{}}
+			f.def(ins, &Map{ID: ex.objSeq, M: map[string]Value{}})
 		case *ssa.MapUpdate:
 			m, _ := ex.get(f, ins.Map).(*Map)
 			if m == nil {
@@ -473,28 +474,28 @@ func (ex *Exec) runBlock(f *frame, b *ssa.BasicBlock, prev *ssa.BasicBlock, name
 			}
 			m.M[k] = ex.get(f, ins.Value)
 		case *ssa.MakeInterface:
-			f.env[ins] = &Iface{Typ: ins.X.Type(), V: ex.get(f, ins.X)}
+			f.def(ins, &Iface{Typ: ins.X.Type(), V: ex.get(f, ins.X)})
 		case *ssa.ChangeInterface:
-			f.env[ins] = ex.get(f, ins.X)
+			f.def(ins, ex.get(f, ins.X))
 		case *ssa.ChangeType:
-			f.env[ins] = ex.get(f, ins.X)
+			f.def(ins, ex.get(f, ins.X))
 		case *ssa.Convert:
-			f.env[ins] = ex.convert(ex.get(f, ins.X), ins.X.Type(), ins.Type())
+			f.def(ins, ex.convert(ex.get(f, ins.X), ins.X.Type(), ins.Type()))
 		case *ssa.SliceToArrayPointer:
-			f.env[ins] = ex.sliceToArrayPtr(ex.get(f, ins.X), ins.Type())
+			f.def(ins, ex.sliceToArrayPtr(ex.get(f, ins.X), ins.Type()))
 		case *ssa.TypeAssert:
-			f.env[ins] = ex.typeAssert(ex.get(f, ins.X), ins)
+			f.def(ins, ex.typeAssert(ex.get(f, ins.X), ins))
 		case *ssa.Extract:
-			f.env[ins] = ex.get(f, ins.Tuple).(Tuple)[ins.Index]
+			f.def(ins, ex.get(f, ins.Tuple).(Tuple)[ins.Index])
 		case *ssa.MakeClosure:
 			fn := ins.Fn.(*ssa.Function)
 			env := make([]Value, len(ins.Bindings))
 			for i, b := range ins.Bindings {
 				env[i] = ex.get(f, b)
 			}
-			f.env[ins] = &Func{Fn: fn, Env: env}
+			f.def(ins, &Func{Fn: fn, Env: env})
 		case *ssa.Call:
-			f.env[ins] = ex.doCall(f, &ins.Call, ins)
+			f.def(ins, ex.doCall(f, &ins.Call, ins))
 		case *ssa.Defer:
 			call := ins.Call
 			// evaluate operands now, run later
@@ -507,11 +508,11 @@ func (ex *Exec) runBlock(f *frame, b *ssa.BasicBlock, prev *ssa.BasicBlock, name
 		case *ssa.Send:
 			ex.fail("channel send is not supported")
 		case *ssa.Select:
-			f.env[ins] = ex.selectInstr(f, ins)
+			f.def(ins, ex.selectInstr(f, ins))
 		case *ssa.Range:
-			f.env[ins] = ex.rangeInit(ex.get(f, ins.X))
+			f.def(ins, ex.rangeInit(ex.get(f, ins.X)))
 		case *ssa.Next:
-			f.env[ins] = ex.rangeNext(ex.get(f, ins.Iter), ins)
+			f.def(ins, ex.rangeNext(ex.get(f, ins.Iter), ins))
 		case *ssa.MakeChan:
 			ex.fail("make(chan) is not supported")
 		case *ssa.Jump:
